@@ -53,6 +53,11 @@ func yaegiOutcome(src string) outcome {
 		return outcome{End: "timeout", Detail: "not run: too many timeouts already"}
 	}
 	r := common.RunYaegi(src, 5*time.Second)
+	if r.Timeout && atomic.LoadInt64(&timeouts) < 10 {
+		// a loaded machine can make a long-running program exceed the short deadline: confirm with a
+		// generous one before the timeout is treated as an outcome
+		r = common.RunYaegi(src, 30*time.Second)
+	}
 	if r.Timeout {
 		atomic.AddInt64(&timeouts, 1)
 	}
